@@ -221,7 +221,112 @@ func c22Scenario() *explore.Scenario {
 	}
 }
 
-func c22Scenarios(thorough bool) []*explore.Scenario { return []*explore.Scenario{c22Scenario()} }
+// c22Resumed: application settings are negotiated anew on every connection (a ticket does not carry
+// them), so on a PSK-resumed TLS 1.3 connection whose server again sends application_settings the
+// client must expose them and still send its own settings in a client EncryptedExtensions message.
+// The hooked server cannot verify the client Finished on a resumed connection (no client certificate is
+// requested, so the stock server has already rolled its transcript past the predicted Finished); what is
+// judged is the message the server reads right after its own flight, and what the client exposes.
+func c22Resumed() *explore.Scenario {
+	var clients []gridClient
+	for _, g := range alpsClients() {
+		if g.PSK {
+			clients = append(clients, g)
+		}
+	}
+	return &explore.Scenario{
+		Name: "alps-on-resumed-connection",
+		Run: func(x *explore.X) (r explore.Result) {
+			if len(clients) < 2 {
+				r.Violate("INFRA|c22-psk-clients", "only %d ALPS- and PSK-capable clients", len(clients))
+				return
+			}
+			g := clients[x.Choose("client", len(clients))]
+			cp := []uint16{17513, 17613}[x.Choose("codepoint", 2)]
+			firstALPS := x.Choose("first-connection-negotiates-alps", 2) == 1
+			cliMode := x.Choose("client-settings", 2) // 0 has the selected proto, 1 nil map
+			srvSettings := [][]byte{{0x42}, rep(0x5e, 300)}[x.Choose("server-settings", 2)]
+			h0, err := g.probeHello()
+			if err != nil || h0.Find(cp) == nil {
+				r.Obs = "codepoint-not-offered"
+				return
+			}
+			o := offerOf(h0)
+			proto := "h2"
+			mine := []byte("client-settings-for-" + proto)
+			ccfg := g.config("example.com")
+			ccfg.ClientSessionCache = tls.NewLRUClientSessionCache(8)
+			if cliMode == 0 {
+				ccfg.ApplicationSettings = map[string][]byte{proto: mine}
+			}
+			certKind := "ecdsa"
+			if !offersCert(o, "ecdsa") {
+				certKind = "rsa"
+			}
+			sc := serverChoice{Vers: tls.VersionTLS13, Cert: certKind, Proto: proto}
+			scfg := sc.config()
+			scfg.ClientAuth = tls.RequestClientCert
+			what := fmt.Sprintf("%s codepoint=%d first-connection-alps=%v client-settings-mode=%d server-settings=%dB", g.Name, cp, firstALPS, cliMode, len(srvSettings))
+			connect := func(alps bool) (*peer.HS, *connHooks) {
+				hk := &connHooks{WantEE: alps}
+				if alps {
+					hk.Out = func(n int, t uint8, d []byte) []byte {
+						if t == 8 {
+							return editEE(d, cp, srvSettings)
+						}
+						return d
+					}
+				}
+				var cleanup func()
+				hs := peer.Run(ccfg, g.ID, scfg, peer.Opts{Prepare: g.prepare(), Echo: true,
+					OnConns: func(u *tls.UConn, s *tls.Conn) { cleanup = installHooks(s, hk) }})
+				if cleanup != nil {
+					cleanup()
+				}
+				return hs, hk
+			}
+			h1, _ := connect(firstALPS)
+			if h1.CPanic != "" {
+				r.Violate("C22|panic", "%s: first connection: %s", what, truncStr(h1.CPanic, 300))
+				return
+			}
+			if !(h1.OK() && h1.EchoOK) {
+				r.Violate("C22|negotiation-fails|first-of-two|"+errClass(h1.SErr), "%s: first connection: client %v / server %v", what, h1.CErr, h1.SErr)
+				return
+			}
+			h2, hk := connect(true)
+			r.Nontrivial = true
+			r.Class = what
+			if h2.CPanic != "" {
+				r.Violate("C22|panic", "%s: second connection: %s", what, truncStr(h2.CPanic, 300))
+				return
+			}
+			if h2.U.HandshakeState.State13.UsingPSK {
+				r.Count("resumed_alps_connections", 1)
+			} else {
+				r.Count("second_connection_not_resumed", 1)
+			}
+			if !hk.GotEE {
+				r.Violate(fmt.Sprintf("C22|no-client-encrypted-extensions|psk=%v", h2.U.HandshakeState.State13.UsingPSK), "%s: the server negotiated application settings on the second connection and read no client EncryptedExtensions after its flight (server: %v)", what, h2.SErr)
+				return
+			}
+			ee := hk.ClientEE
+			if !(len(ee) >= 10 && ee[0] == 8) || uint16(ee[6])<<8|uint16(ee[7]) != cp {
+				r.Violate("C22|client-ee-shape", "%s: client EncryptedExtensions % x", what, trunc(ee, 40))
+			} else if body := ee[10:]; cliMode == 0 && !bytes.Equal(body, mine) {
+				r.Violate("C22|client-settings-not-sent|resumed", "%s: the client sent %q as its settings", what, body)
+			} else if cliMode != 0 && len(body) != 0 {
+				r.Violate("C22|client-settings-invented", "%s: the client sent %d bytes of settings without a configured entry", what, len(body))
+			}
+			r.Obs = fmt.Sprintf("psk=%v|ee=%d", h2.U.HandshakeState.State13.UsingPSK, len(ee))
+			return
+		},
+	}
+}
+
+func c22Scenarios(thorough bool) []*explore.Scenario {
+	return []*explore.Scenario{c22Scenario(), c22Resumed()}
+}
 
 func init() {
 	register(&Prop{ID: "C22", Level: "exploration", Variant: "A", Scenarios: c22Scenarios,
